@@ -1,6 +1,6 @@
 #!/bin/bash
 # runs every registered check once (tier $1, default quick) and prints one line per property
-cd /verif
+cd "$(dirname "$0")/.."
 mkdir -p out
 TIER=${1:-quick}
 for p in $(python3 -c "import json;print(' '.join(sorted(json.load(open('checks.json')).keys())))"); do
